@@ -188,10 +188,12 @@ def run(ctx):
         ctx.oblige(True)
     exe = core.build_harness("repair")
     mexe = core.build_model("c06")
-    cases = c06gen.gen_cases(ctx, ctx.n(150, 1500), ctx.n(6, 8))
+    cases = c06gen.corpus_cases(ctx.rng, ctx.n(12, 120)) + c06gen.gen_cases(ctx, ctx.n(150, 1500), ctx.n(6, 8))
     impl = run_impl(exe, cases)
     todo = [(i, l) for i, l in enumerate(impl) if l.startswith("G ")]
-    opt = " # OPT ncap=%d maxedits=%d mfuel=%d" % (ctx.n(150000, 600000), ctx.n(6, 7), ctx.n(10000, 40000))
+    # the mirror with the pinned `shift` is only needed while the KNOWN_SHIFT class applies
+    opt = " # OPT ncap=%d maxedits=%d mfuel=%d mirrors=%d" % (ctx.n(150000, 600000), ctx.n(6, 7), ctx.n(10000, 40000),
+                                                            2 if SHIFT_FIXED else 3)
     mout = core.run_lines([mexe], [repair.shrink_for_model(l) + opt for _, l in todo], timeout=2400)
     model = {i: m for (i, _), m in zip(todo, mout)}
     compared = 0
